@@ -11,6 +11,12 @@ EKF_COMPONENTS = {
 }
 EKF_ASSUMPTIONS = ["domain guards on the reference side: |x|<=1e4, |P|<=1e6, cond(S)<=1e5 (run truncated at that op, earlier ops stay checked)", "tolerance 1e-9 (state, innovation, S) / 1e-8 (covariance) relative to 1+max|ref|", "reference EKF re-seeded from the SUT's actual inputs at every step"]
 
+GEN_COMPONENTS = {
+    "real": ["formak.cpp.compile_ekf (generator entry point, templates, ast_fragments)", "generated header/source (real output)", "cpp/runtime/include/formak/runtime/ManagedFilter.h", "cpp/include/formak/innovation_filtering.h", "formak.python.compile_ekf + formak.runtime.ManagedFilter (python leg)"],
+    "stub": ["<Eigen/Dense>: ~60-line fixed-size Matrix stand-in (no Eigen in the sandbox): Zero, Identity, (i,j), coefficient ctor, transpose, inverse (Gauss-Jordan, partial pivoting), * + -"],
+}
+GEN_ASSUMPTIONS = ["'compiles' means: compiles with g++ 12 -std=c++20 -O0 -ffp-contract=off against the Eigen stand-in", "numerical agreement to 1e-9 relative (covariance 1e-8); decisions compared outside the 1e-9 NIS band", "symbol names identifier-safe (no C++ keywords, no names the generator itself emits in the same scope)"]
+
 PLANS = {
     "C10": {
         "level": "exploration",
@@ -64,11 +70,30 @@ PLANS = {
     },
     "C06": {
         "level": "exploration",
-        "legs": [{"world": "ekf", "quick": {"runs": 320, "budget_s": 45}, "thorough": {"runs": 12000, "budget_s": 600}, "run_timeout": 120, "chunk": 4}],
-        "rule": "update-heavy histories with corrupted-reading faults: spikes (10-1000 sigma), mantissa/exponent bit flips, boundary values placed at NIS = thr*(1 +- {1e-7,1e-5,1e-3,0.05}) and exactly representable ties / +-1 ulp on the selector model (S = diag(1,0.5)); k in {None,0.5,1,3,5}, m in 1..3; decision oracle = exact rational z^T S^-1 z vs 60-digit k*sqrt(2m)+m; a discard must leave state and covariance bit-identical while innovation and S are recorded",
+        "legs": [{"world": "ekf", "quick": {"runs": 320, "budget_s": 40}, "thorough": {"runs": 12000, "budget_s": 600}, "run_timeout": 120, "chunk": 4},
+                 {"world": "cpp_gen", "quick": {"runs": 64, "budget_s": 45}, "thorough": {"runs": 2000, "budget_s": 600}, "run_timeout": 240, "chunk": 1}],
+        "rule": "update-heavy histories with corrupted-reading faults: spikes (10-1000 sigma), mantissa/exponent bit flips, boundary values placed at NIS = thr*(1 +- {1e-7,1e-5,1e-3,0.05}) and exactly representable ties / +-1 ulp on the selector model (S = diag(1,0.5)); k in {None,0.5,1,3,5}, m in 1..3; decision oracle = exact rational z^T S^-1 z vs 60-digit k*sqrt(2m)+m; a discard must leave state and covariance bit-identical while innovation and S are recorded; cpp_gen leg: the generated C++ sensor_model (decision observed as 'estimate unchanged', inputs re-seeded from the Python leg) and removeInnovation<m> (m=1..4, real innovation_filtering.h) and Python remove_innovation on the same (k, z, S^-1) triples incl. exact ties",
         "abstract_measure": "distinct (op kind, reading size, reject parity, model shape) tuples",
         "expect_probes": ["fault:corrupt:spike", "fault:corrupt:bitflip", "fault:corrupt:boundary", "fault:corrupt:boundary_exact_tie", "fault:corrupt:boundary_ulp_above", "fault:corrupt:boundary_ulp_below", "probe:nis_exact_tie", "probe:discarded", "probe:filtering_disabled_update", "probe:multi_reading_update", "probe:nis_within_1e-6_of_threshold"],
         "components": EKF_COMPONENTS,
         "assumptions": EKF_ASSUMPTIONS + ["decisions are only demanded outside |NIS-thr| <= 1e-9*thr, except exactly representable ties (m=2: thr = 2k+2) where 'not discarded' is required"],
+    },
+    "C07": {
+        "level": "exploration",
+        "legs": [{"world": "cpp_gen", "quick": {"runs": 112, "budget_s": 75}, "thorough": {"runs": 4000, "budget_s": 1200}, "run_timeout": 240, "chunk": 1}],
+        "rule": "each run = swarm-drawn identifier-safe model (all 4 control x calibration combinations, CSE on/off, k in {off,1,3,5}) -> real formak.cpp generator -> g++ against real ManagedFilter.h / innovation_filtering.h; the real Python filter+runtime and the generated C++ filter+runtime are fed the same seeded history (direct predictions/updates re-seeded from the Python leg's estimate, ticks with stale/future/burst readings and clock jumps on managed filters restarted from it); state, covariance, stored innovation and accept/reject must agree to 1e-9 relative; fields are set and read by name on both sides",
+        "abstract_measure": "distinct (op kind, control x calibration combination, #sensors, #readings in tick)",
+        "expect_probes": ["probe:combo_control=0&calibration=0", "probe:combo_control=0&calibration=1", "probe:combo_control=1&calibration=0", "probe:combo_control=1&calibration=1", "probe:cse_on", "probe:cse_off", "probe:cpp_discarded", "probe:k=None"],
+        "components": GEN_COMPONENTS,
+        "assumptions": GEN_ASSUMPTIONS,
+    },
+    "C12": {
+        "level": "exploration",
+        "legs": [{"world": "cpp_gen", "quick": {"runs": 112, "budget_s": 75}, "thorough": {"runs": 4000, "budget_s": 1200}, "run_timeout": 240, "chunk": 1}],
+        "rule": "as C07, with 0..3 sensors: (1) static_assert(ManagedFilter<generated::ExtendedKalmanFilter>::compatible), construction and tick without/with readings must compile for the generated type itself and for a recording subclass; (2) every tick of the schedule (persistent managed filter across consecutive ticks) must equal, bit for bit, the by-hand replay of the logged process_model(dt)/sensor_model<Reading> calls on a copy of the held estimate",
+        "abstract_measure": "distinct (op kind, control x calibration combination, #sensors, #readings in tick)",
+        "expect_probes": ["probe:combo_control=0&calibration=0", "probe:combo_control=0&calibration=1", "probe:combo_control=1&calibration=0", "probe:combo_control=1&calibration=1", "probe:sensors=0", "probe:sensors=1", "probe:sensors=2", "probe:tick_readings=0", "probe:tick_readings=2"],
+        "components": GEN_COMPONENTS,
+        "assumptions": GEN_ASSUMPTIONS,
     },
 }
